@@ -2,6 +2,7 @@ package props
 
 import (
 	"fmt"
+	"os"
 	"path/filepath"
 	"sort"
 	"strings"
@@ -93,6 +94,15 @@ func describeOp(op gen.Op) map[string]any {
 
 // applyOp applies op to shard and model. m is only modified when both agree.
 func applyOp(res *fw.CaseResult, propTag string, s *sx.Sx, m *model.Model, op gen.Op, step int) (ok bool, out opOutcome) {
+	if os.Getenv("VERIF_TRACE") != "" {
+		fmt.Fprintf(os.Stderr, "TRACE step %d %s %s:\n", step, op.Kind, op.Tag)
+		for _, p := range op.Points {
+			fmt.Fprintf(os.Stderr, "   %s %s\n", p.Id.String()[:8], model.Describe(map[string]any(p.Doc)))
+		}
+		if op.Kind == gen.OpDelete {
+			fmt.Fprintf(os.Stderr, "   ids %s\n", idsString(op.Ids))
+		}
+	}
 	next := m.Clone()
 	switch op.Kind {
 	case gen.OpInsert:
